@@ -72,3 +72,25 @@ def specs_wiring(tier, algs=("main", "nonhermitian")):
     s = [(AE, "unit_wiring", {"alg_name": a, "nblocks": nb, "ninf": ni, "with_scope": ws, "timeout_ms": t}) for a in algs for nb, ni, ws in cfgs]
     s += [(AE, "unit_helpers", {"nterms": k, "timeout_ms": t}) for k in ((1, 2, 3, 4, 5, 7) if tier == "thorough" else (1, 3, 5))]
     return s
+
+
+SY = "contracts.sylvester"
+BM = "contracts.bd_masks"
+
+
+def specs_solver(tier):
+    t = 60000 if tier == "thorough" else 20000
+    s = [(SY, "unit_sylvester_diagonal", {"kind": k, "timeout_ms": t}) for k in ("zero", "dense", "sparse", "sympy")]
+    s.append((SY, "unit_sylvester_diagonal", {"kind": "dense", "timeout_ms": t, "canary": True}))
+    s.append((SY, "unit_sylvester_formula", {"timeout_ms": t}))
+    return s
+
+
+def specs_masks(tier):
+    t = 60000 if tier == "thorough" else 20000
+    cfg = [("none", 2, None), ("none", 3, None), ("tuple", 2, None), ("dict", 2, None), ("tuple", 1, True), ("dict", 3, False)]
+    if tier == "thorough":
+        cfg += [("none", 1, None), ("tuple", 3, None), ("dict", 1, True), ("tuple", 4, False)]
+    s = [(BM, "unit_masks", {"variant": v, "nb": nb, "hermitian": h, "timeout_ms": t}) for v, nb, h in cfg]
+    s.append((BM, "unit_masks", {"variant": "tuple", "nb": 2, "hermitian": None, "timeout_ms": t, "canary": True}))
+    return s
